@@ -26,7 +26,9 @@ theorem C19_scores (k : Nat) (a : Acc) (ins del : Bool) (hk : 1 ≤ k) (h : WFdB
     (∀ v, v < 4 ^ k → ((calculateIntersectionScore (accessorToLatterMap a) k ins del).getD v #[]).size = 4) ∧
     (∀ v j : Nat, v < 4 ^ k → j < 4 →
       0 < scoreAt (calculateIntersectionScore (accessorToLatterMap a) k ins del) v j → 0 ≤ a.ent (v : Int) j) := by
-  sorry
+  have hinv := scoreInv_calc k (accessorToLatterMap a) ins del
+    (fun v j => 0 ≤ a.ent (v : Int) j) (latterMap_good hk h)
+  exact ⟨hinv.1, hinv.2.1, fun v j _ _ hp => hinv.2.2 v j hp⟩
 
 /-- one returning call: it removes exactly one arc that existed, that arc has the maximum
 intersection score of the graph before the call, no other entry changes, and the accessor and
@@ -40,7 +42,13 @@ theorem C19_step (k : Nat) (a : Acc) (lm : LMap) (ins del : Bool) (r : RemoveRes
         scoreAt (calculateIntersectionScore lm k ins del) v j' ≤
           scoreAt (calculateIntersectionScore lm k ins del) r.former j) ∧
       Consistent k r.acc r.lmap ∧ r.acc.arcCount + 1 = a.arcCount := by
-  sorry
+  obtain ⟨hw, rfl⟩ := hc
+  obtain ⟨hlt, j, hj, hent, hacc, hlm, hmax⟩ := removeNastyArc_ok hk hw h
+  have hj4 : j < 4 := ((mem_live_rm _ _ _).1 hj).1
+  refine ⟨hlt, j, hj4, hent, hacc, fun v j' _ _ => hmax v j', ⟨?_, ?_⟩, ?_⟩
+  · rw [hacc]; exact wfdb_setEnt k a _ _ _ hw (Or.inl rfl)
+  · rw [hlm, hacc, latterMap_setEnt_erase hk hw hlt hj, hent, Int.toNat_natCast]
+  · rw [hacc]; exact arcCount_setEnt hw hlt hj
 
 /-- a sequence of removal calls, stopping at the first call that raises. -/
 def removeSeq : Acc → LMap → List (Bool × Bool) → R (Acc × LMap)
@@ -55,10 +63,23 @@ one arc. -/
 theorem C19_history (k : Nat) (a a' : Acc) (lm lm' : LMap) (flags : List (Bool × Bool)) (hk : 1 ≤ k)
     (hc : Consistent k a lm) (h : removeSeq a lm flags = .ok (a', lm')) :
     Consistent k a' lm' ∧ a'.arcCount + flags.length = a.arcCount := by
-  sorry
+  induction flags generalizing a lm with
+  | nil =>
+    simp only [removeSeq, Except.ok.injEq, Prod.mk.injEq] at h
+    obtain ⟨rfl, rfl⟩ := h
+    exact ⟨hc, rfl⟩
+  | cons f fs ih =>
+    rw [removeSeq] at h
+    split at h
+    · next r hr =>
+      obtain ⟨_, j, _, _, _, _, hc', hcnt⟩ := C19_step k a lm f.1 f.2 r hk hc hr
+      obtain ⟨h1, h2⟩ := ih r.acc r.lmap hc' h
+      refine ⟨h1, ?_⟩
+      rw [List.length_cons]; omega
+    · cases h
 
-example : Consistent 2 gcBalanced2 (accessorToLatterMap gcBalanced2) ∧ wfdbB 2 gcBalanced2 = true := by
-  sorry
+example : Consistent 2 gcBalanced2 (accessorToLatterMap gcBalanced2) ∧ wfdbB 2 gcBalanced2 = true :=
+  ⟨⟨wfdb_induced 2 _, rfl⟩, by decide +kernel⟩
 example : (removeNastyArc gcBalanced2 (accessorToLatterMap gcBalanced2) true true).toOption.map
     (fun r => (r.former, r.latter)) = some (1, 4) := by decide +kernel
 
